@@ -1857,4 +1857,475 @@ theorem validateVar_valid {β : Type} (input : List (List Nat × List β)) :
   obtain ⟨⟨t, ms⟩, ht, m, _, rfl⟩ := htm
   exact validate_valid input (t, ms) ht
 
+
+
+/-! ### "each once" about the very list the driver compares -/
+
+theorem nodup_dedup' {β : Type} [BEq β] [LawfulBEq β] (l : List β) : (dedup l).Nodup := by
+  induction l with
+  | nil => simp [dedup]
+  | cons y ys ih =>
+    simp only [dedup, List.nodup_cons, List.mem_filter]
+    refine ⟨fun h => by simp at h, ih.filter _⟩
+
+theorem nodup_refPlacements (seq : List Nat) (pos : Position) (vars : List (Target × Rat))
+    (sites : List Site) (hs : sites.Nodup) (k : Nat) : (refPlacements seq pos vars k sites).Nodup := by
+  induction sites generalizing k with
+  | nil => simp [refPlacements]
+  | cons s rest ih =>
+    obtain ⟨hs1, hs2⟩ := List.nodup_cons.mp hs
+    simp only [refPlacements]
+    rw [List.nodup_append]
+    refine ⟨ih hs2 k, ?_, ?_⟩
+    · split
+      · simp
+      · rw [List.nodup_flatMap]
+        refine ⟨fun m _ => (ih hs2 (k - 1)).map (fun a b h => by simpa using h), ?_⟩
+        apply List.Nodup.pairwise_of_forall_ne (nodup_dedup' _)
+        intro a _ b _ hab σ h1 h2
+        simp only [List.mem_map] at h1 h2
+        obtain ⟨σ1, _, rfl⟩ := h1
+        obtain ⟨σ2, _, h⟩ := h2
+        simp only [List.cons.injEq, Prod.mk.injEq, true_and] at h
+        exact hab h.1.symm
+    · intro a ha b hb hab
+      subst hab
+      have h1 := ((mem_refPlacements _ _ _ _ _ _).mp ha).1
+      split at hb
+      · simp at hb
+      · simp only [List.mem_flatMap, List.mem_map] at hb
+        obtain ⟨m, _, σ', _, rfl⟩ := hb
+        exact hs1 (h1.subset (by simp))
+
+/-- a placement rewritten in site order (N-terminus, residues left to right, C-terminus) -/
+def canon (n : Nat) (σ : List (Site × Rat)) : List (Site × Rat) :=
+  (allSites n).filterMap fun s => (σ.lookup s).map fun m => (s, m)
+
+theorem canon_fst (n : Nat) (σ : List (Site × Rat)) :
+    (canon n σ).map Prod.fst = (allSites n).filter (fun s => (σ.lookup s).isSome) := by
+  simp only [canon]
+  generalize allSites n = l
+  induction l with
+  | nil => rfl
+  | cons s rest ih => cases h : σ.lookup s <;> simp [h, ih]
+
+theorem canon_sublist (n : Nat) (σ : List (Site × Rat)) : ((canon n σ).map Prod.fst).Sublist (allSites n) :=
+  canon_fst n σ ▸ List.filter_sublist
+
+theorem canon_distinct (n : Nat) (σ : List (Site × Rat)) : ((canon n σ).map Prod.fst).Nodup :=
+  (canon_sublist n σ).nodup (nodup_allSites n)
+
+theorem canon_perm (n : Nat) (σ : List (Site × Rat)) (hd : (σ.map Prod.fst).Nodup)
+    (hr : ∀ x ∈ σ, InRange n x.1) : (canon n σ).Perm σ := by
+  rw [List.perm_ext_iff_of_nodup (nodup_of_map_fst (canon_distinct n σ)) (nodup_of_map_fst hd)]
+  rintro ⟨s, m⟩
+  simp only [canon, List.mem_filterMap, Option.map_eq_some_iff, Prod.mk.injEq]
+  constructor
+  · rintro ⟨s', _, m', hl, rfl, rfl⟩
+    exact (lookup_eq_some hd).mp hl
+  · intro hx
+    exact ⟨s, (mem_allSites _ _).mpr (hr _ hx), m, (lookup_eq_some hd).mpr hx, rfl, rfl⟩
+
+theorem canon_congr (n : Nat) {σ τ : List (Site × Rat)} (hp : σ.Perm τ) (hd : (σ.map Prod.fst).Nodup) :
+    canon n σ = canon n τ := by
+  simp only [canon, lookup_perm hp hd]
+
+theorem eq_of_perm_of_fst_eq {l1 l2 : List (Site × Rat)} (hd : (l1.map Prod.fst).Nodup)
+    (hp : l1.Perm l2) (hf : l1.map Prod.fst = l2.map Prod.fst) : l1 = l2 := by
+  induction l1 generalizing l2 with
+  | nil => exact hp.nil_eq
+  | cons x t1 ih =>
+    cases l2 with
+    | nil => simp at hf
+    | cons y t2 =>
+      simp only [List.map_cons, List.cons.injEq] at hf
+      simp only [List.map_cons, List.nodup_cons] at hd
+      have hxy : x = y := by
+        rcases List.mem_cons.mp (hp.subset (List.mem_cons_self)) with h | h
+        · exact h
+        · exfalso
+          apply hd.1
+          rw [hf.2]
+          exact List.mem_map.mpr ⟨x, h, rfl⟩
+      subst hxy
+      rw [ih hd.2 (List.Perm.cons_inv hp) hf.2]
+
+/-- entries of the reference enumeration are already in site order -/
+theorem canon_of_sorted (n : Nat) (σ : List (Site × Rat)) (hs : (σ.map Prod.fst).Sublist (allSites n)) :
+    canon n σ = σ := by
+  have hd := hs.nodup (nodup_allSites n)
+  have hr : ∀ x ∈ σ, InRange n x.1 := fun x hx =>
+    (mem_allSites _ _).mp (hs.subset (List.mem_map.mpr ⟨x, hx, rfl⟩))
+  have hp := canon_perm n σ hd hr
+  refine eq_of_perm_of_fst_eq (canon_distinct n σ) hp ?_
+  apply sublist_ext_of_nodup (nodup_allSites n) (canon_sublist n σ) hs
+  intro s
+  exact (hp.map Prod.fst).mem_iff
+
+theorem refSlot_congr (seq : List Nat) (pos : Position) (statics : List (Target × Rat))
+    {σ τ : List (Site × Rat)} (h : ∀ s, σ.lookup s = τ.lookup s) (s : Site) :
+    refSlot seq pos statics σ s = refSlot seq pos statics τ s := by
+  simp only [refSlot, h s]
+
+theorem refForm_perm (seq : List Nat) (pos : Position) (statics : List (Target × Rat))
+    {σ τ : List (Site × Rat)} (hp : σ.Perm τ) (hd : (σ.map Prod.fst).Nodup) :
+    refForm seq pos statics σ = refForm seq pos statics τ := by
+  have h := lookup_perm hp hd
+  simp only [refForm, refSlot_congr seq pos statics h]
+
+/-- the unmodified form first, then the accepted combinations: the index list behind `varForms` -/
+def allPlacements (cands : List (Site × Rat)) (max : Nat) : List (List (Site × Rat)) :=
+  [] :: placements cands max
+
+theorem varForms_eq (p : Peptide Rat) (vars : List (Target × Rat)) (max : Nat) :
+    varForms p vars max = (allPlacements (pushResi p.sequence p.position vars) max).map (applyCombo p) := by
+  simp [varForms, allPlacements, applyCombo]
+
+theorem mem_allPlacements (cands : List (Site × Rat)) (max : Nat) (c : List (Site × Rat)) :
+    c ∈ allPlacements cands max ↔ c.Sublist cands ∧ c.length ≤ max ∧ (c.map Prod.fst).Nodup := by
+  simp only [allPlacements, List.mem_cons, mem_placements]
+  constructor
+  · rintro (rfl | ⟨h1, _, h3, h4⟩)
+    · simp
+    · exact ⟨h1, h3, h4⟩
+  · rintro ⟨h1, h2, h3⟩
+    cases c with
+    | nil => exact Or.inl rfl
+    | cons x xs => exact Or.inr ⟨h1, by simp, h2, h3⟩
+
+theorem nodup_allPlacements (cands : List (Site × Rat)) (max : Nat) (h : cands.Nodup) :
+    (allPlacements cands max).Nodup := by
+  simp only [allPlacements, List.nodup_cons]
+  refine ⟨fun hm => ?_, nodup_placements cands max h⟩
+  have := ((mem_placements _ _ _).mp hm).2.1
+  simp at this
+
+/-- rewritten in site order, the code's accepted combinations (with the empty one) are exactly the
+    reference enumeration, each once -/
+theorem placements_perm_ref (seq : List Nat) (pos : Position) (vars : List (Target × Rat))
+    (hv : ∀ tm ∈ vars, tm.1.Valid) (hnd : (pushResi seq pos vars).Nodup) (max : Nat) :
+    ((allPlacements (pushResi seq pos vars) max).map (canon seq.length)).Perm
+      (refPlacements seq pos vars max (allSites seq.length)) := by
+  set cands := pushResi seq pos vars with hc
+  have hrange := pushResi_inRange seq pos vars hv
+  have hpl : ∀ c ∈ allPlacements cands max, IsPlacement cands max c ∧ c.Sublist cands ∧
+      (canon seq.length c).Perm c := by
+    intro c hcm
+    obtain ⟨h1, h2, h3⟩ := (mem_allPlacements _ _ _).mp hcm
+    exact ⟨⟨fun x hx => h1.subset hx, h3, h2⟩, h1, canon_perm _ c h3 (fun x hx => hrange x (h1.subset hx))⟩
+  rw [List.perm_ext_iff_of_nodup _ (nodup_refPlacements seq pos vars _ (nodup_allSites _) max)]
+  · intro x
+    constructor
+    · intro hx
+      obtain ⟨c, hcm, rfl⟩ := List.mem_map.mp hx
+      obtain ⟨hp, _, hperm⟩ := hpl c hcm
+      refine (mem_refPlacements _ _ _ _ _ _).mpr ⟨canon_sublist _ c, hperm.length_eq ▸ hp.bound, ?_⟩
+      rintro ⟨s, m⟩ hsm
+      obtain ⟨t, ht, he⟩ := (mem_pushResi seq pos vars hv s m).mp (hp.sub _ (hperm.subset hsm))
+      exact (mem_optionsAt _ _ _ _ _).mpr ⟨t, ht, he⟩
+    · intro hx
+      have hx' := (mem_refPlacements _ _ _ _ _ _).mp hx
+      have hp := ref_sound seq pos vars hv max x hx
+      -- the code's combination with the same entries
+      let c := cands.filter (fun y => decide (y ∈ x))
+      have hcx : c.Perm x := by
+        rw [List.perm_ext_iff_of_nodup (hnd.filter _) (nodup_of_map_fst hp.distinct)]
+        intro y
+        simp only [List.mem_filter, decide_eq_true_eq]
+        exact ⟨fun h => h.2, fun h => ⟨hp.sub y h, h⟩⟩
+      have hcd : (c.map Prod.fst).Nodup := (hcx.map Prod.fst).nodup_iff.mpr hp.distinct
+      have hcm : c ∈ allPlacements cands max :=
+        (mem_allPlacements _ _ _).mpr ⟨List.filter_sublist, hcx.length_eq ▸ hp.bound, hcd⟩
+      refine List.mem_map.mpr ⟨c, hcm, ?_⟩
+      rw [canon_congr _ hcx hcd, canon_of_sorted _ x hx'.1]
+  · refine List.Nodup.map_on ?_ (nodup_allPlacements cands max hnd)
+    intro c1 h1 c2 h2 heq
+    obtain ⟨_, hs1, hp1⟩ := hpl c1 h1
+    obtain ⟨_, hs2, hp2⟩ := hpl c2 h2
+    have : c1.Perm c2 := hp1.symm.trans (heq ▸ hp2)
+    exact sublist_ext_of_nodup hnd hs1 hs2 (fun y => this.mem_iff)
+
+/-- **C06.apply_perm_ref** — "each once" about the list the driver compares: under the premises
+    (valid targets, non-zero variable masses, disjoint static mods, no duplicate candidate) the forms
+    of `apply`, read as observed triples, are a PERMUTATION of the executable reference enumeration
+    `refForms` — same forms with the same multiplicities. -/
+theorem apply_perm_ref (pos : Position) (seq : List Nat) (vars statics : List (Target × Rat)) (max : Nat)
+    (p : Peptide Rat) (hp : tryFrom Sage.Gen.H2O Sage.Gen.MONOISOTOPIC pos seq = some p)
+    (hvv : ∀ tm ∈ vars, tm.1.Valid) (hvs : ∀ tm ∈ statics, tm.1.Valid)
+    (hz : ∀ tm ∈ vars, tm.2 ≠ 0) (hdisj : statics.Pairwise (StaticsDisjoint seq pos))
+    (hnd : (pushResi seq pos vars).Nodup) :
+    ((apply p vars statics max).map toForm).Perm (refForms seq pos vars statics max) := by
+  obtain ⟨hpos, hseq, _⟩ := tryFrom_some hp
+  obtain ⟨hfresh, _⟩ := tryFrom_fresh hp
+  have hrange := pushResi_inRange seq pos vars hvv
+  rw [apply_eq_map, varForms_eq, hpos, hseq]
+  simp only [List.map_map]
+  have hstep : ∀ c ∈ allPlacements (pushResi seq pos vars) max,
+      (toForm ∘ (fun q => finish (applyStatics statics q)) ∘ applyCombo p) c =
+        (refForm seq pos statics ∘ canon seq.length) c := by
+    intro c hcm
+    obtain ⟨h1, h2, h3⟩ := (mem_allPlacements _ _ _).mp hcm
+    have hpl : IsPlacement (pushResi seq pos vars) max c := ⟨fun x hx => h1.subset hx, h3, h2⟩
+    simp only [Function.comp]
+    rw [applyCombo_eq_place p hfresh c h3,
+      refForm_eq _ _ pos seq vars statics max p hp hvs hz hdisj c hpl]
+    exact (refForm_perm seq pos statics (canon_perm _ c h3 (fun x hx => hrange x (h1.subset hx))) (canon_distinct _ c)).symm
+  rw [List.map_congr_left hstep, ← List.map_map]
+  exact (placements_perm_ref seq pos vars hvv hnd max).map _
+
+/-- non-vacuity: "MCMK", variable `M`+16 and `^`+42, static `C`+57, max 2 — seven forms on both sides -/
+example : ((tryFrom Sage.Gen.H2O Sage.Gen.MONOISOTOPIC .full [77, 67, 77, 75]).map fun p =>
+    ((apply p [(.residue 77, 16), (.peptideN none, 42)] [(.residue 67, 57)] 2).map toForm).length) = some 7 ∧
+    (refForms [77, 67, 77, 75] .full [(.residue 77, 16), (.peptideN none, 42)] [(.residue 67, 57)] 2).length = 7 := by
+  constructor <;> decide +kernel
+
+
+
+
+/-! ### `Display for Peptide` determines the peptide -/
+
+section displayInj
+variable {α : Type} [DecidableEq α] [OfNat α 0]
+
+/-- text up to the first `]` is delimited by it -/
+theorem delim_inj {a a' r r' : List Nat} (ha : 93 ∉ a) (ha' : 93 ∉ a')
+    (h : a ++ 93 :: r = a' ++ 93 :: r') : a = a' ∧ r = r' := by
+  induction a generalizing a' with
+  | nil =>
+    cases a' with
+    | nil => simpa using h
+    | cons x xs =>
+      simp only [List.nil_append, List.cons_append, List.cons.injEq] at h
+      exact absurd (by rw [← h.1]; simp) ha'
+  | cons x xs ih =>
+    cases a' with
+    | nil =>
+      simp only [List.nil_append, List.cons_append, List.cons.injEq] at h
+      exact absurd (by rw [h.1]; simp) ha
+    | cons y ys =>
+      simp only [List.cons_append, List.cons.injEq] at h
+      obtain ⟨h1, h2⟩ := ih (fun hm => ha (List.mem_cons_of_mem _ hm)) (fun hm => ha' (List.mem_cons_of_mem _ hm)) h.2
+      exact ⟨by rw [h.1, h1], h2⟩
+
+theorem bracket_inj {t t' r r' : List Nat} (ht : 93 ∉ t) (ht' : 93 ∉ t')
+    (h : bracket t ++ r = bracket t' ++ r') : t = t' ∧ r = r' := by
+  simp only [bracket, List.cons_append, List.append_assoc, List.cons.injEq, true_and] at h
+  exact delim_inj ht ht' h
+
+/-- the masses a peptide shows: both termini if set, and the non-zero residue slots -/
+def Shows (S : α → Prop) (p : Peptide α) : Prop :=
+  (∀ m, p.nterm = some m → S m) ∧ (∀ m, p.cterm = some m → S m) ∧ ∀ m ∈ p.mods, m ≠ 0 → S m
+
+omit [DecidableEq α] [OfNat α 0] in
+theorem dispC_inj (fmt : α → List Nat) (S : α → Prop)
+    (hbr : ∀ m, S m → 93 ∉ fmt m) (hinj : ∀ m m', S m → S m' → fmt m = fmt m' → m = m')
+    {c c' : Option α} (hc : ∀ m, c = some m → S m) (hc' : ∀ m, c' = some m → S m)
+    (h : dispC fmt c = dispC fmt c') : c = c' := by
+  cases c with
+  | none => cases c' with
+    | none => rfl
+    | some m' => simp [dispC] at h
+  | some m => cases c' with
+    | none => simp [dispC] at h
+    | some m' =>
+      simp only [dispC, List.cons.injEq, true_and] at h
+      have := bracket_inj (r := []) (r' := []) (hbr m (hc m rfl)) (hbr m' (hc' m' rfl)) (by simpa using h)
+      rw [hinj m m' (hc m rfl) (hc' m' rfl) this.1]
+
+/-- what follows the N-terminal prefix never starts with `[` -/
+theorem body_head (fmt : α → List Nat) (seq : List Nat) (mods : List α) (c : Option α)
+    (hseq : ∀ r ∈ seq, r ≠ 91 ∧ r ≠ 45) :
+    (dispResidues fmt seq mods ++ dispC fmt c).head? ≠ some 91 := by
+  cases seq with
+  | nil => cases c <;> simp [dispResidues, dispC]
+  | cons r rs =>
+    cases mods with
+    | nil => cases c <;> simp [dispResidues, dispC]
+    | cons m ms =>
+      have := (hseq r (by simp)).1
+      simp only [dispResidues]
+      split <;> simpa using this
+
+theorem body_inj (fmt : α → List Nat) (S : α → Prop)
+    (hbr : ∀ m, S m → 93 ∉ fmt m) (hinj : ∀ m m', S m → S m' → fmt m = fmt m' → m = m')
+    (seq seq' : List Nat) (mods mods' : List α) (c c' : Option α)
+    (hl : mods.length = seq.length) (hl' : mods'.length = seq'.length)
+    (hseq : ∀ r ∈ seq, r ≠ 91 ∧ r ≠ 45) (hseq' : ∀ r ∈ seq', r ≠ 91 ∧ r ≠ 45)
+    (hm : ∀ m ∈ mods, m ≠ 0 → S m) (hm' : ∀ m ∈ mods', m ≠ 0 → S m)
+    (hc : ∀ m, c = some m → S m) (hc' : ∀ m, c' = some m → S m)
+    (h : dispResidues fmt seq mods ++ dispC fmt c = dispResidues fmt seq' mods' ++ dispC fmt c') :
+    seq = seq' ∧ mods = mods' ∧ c = c' := by
+  induction seq generalizing seq' mods mods' with
+  | nil =>
+    have : mods = [] := by simpa using hl
+    subst this
+    cases seq' with
+    | nil =>
+      have : mods' = [] := by simpa using hl'
+      subst this
+      exact ⟨rfl, rfl, dispC_inj fmt S hbr hinj hc hc' (by simpa [dispResidues] using h)⟩
+    | cons r' rs' =>
+      cases mods' with
+      | nil => simp at hl'
+      | cons m' ms' =>
+        exfalso
+        have hr' := hseq' r' (by simp)
+        simp only [dispResidues, List.nil_append] at h
+        cases c with
+        | none => simp only [dispC] at h; split at h <;> simp at h
+        | some m =>
+          simp only [dispC] at h
+          split at h <;> (simp at h; exact hr'.2 h.1.symm)
+  | cons r rs ih =>
+    cases mods with
+    | nil => simp at hl
+    | cons m ms =>
+      have hr := hseq r (by simp)
+      cases seq' with
+      | nil =>
+        exfalso
+        have : mods' = [] := by simpa using hl'
+        subst this
+        simp only [dispResidues, List.nil_append] at h
+        cases c' with
+        | none => simp only [dispC] at h; split at h <;> simp at h
+        | some m' =>
+          simp only [dispC] at h
+          split at h <;> (simp at h; exact hr.2 h.1)
+      | cons r' rs' =>
+        cases mods' with
+        | nil => simp at hl'
+        | cons m' ms' =>
+          have hr' := hseq' r' (by simp)
+          simp only [dispResidues] at h
+          have hrec := fun (hh : dispResidues fmt rs ms ++ dispC fmt c = dispResidues fmt rs' ms' ++ dispC fmt c') =>
+            ih rs' ms ms' (by simpa using hl) (by simpa using hl')
+              (fun x hx => hseq x (List.mem_cons_of_mem _ hx)) (fun x hx => hseq' x (List.mem_cons_of_mem _ hx))
+              (fun x hx => hm x (List.mem_cons_of_mem _ hx)) (fun x hx => hm' x (List.mem_cons_of_mem _ hx)) hh
+          by_cases h0 : m = 0 <;> by_cases h0' : m' = 0
+          · subst h0; subst h0'
+            simp only [beq_self_eq_true, ↓reduceIte, List.cons_append, List.nil_append, List.cons.injEq] at h
+            obtain ⟨h1, h2, h3⟩ := hrec h.2
+            exact ⟨by rw [h.1, h1], by rw [h2], h3⟩
+          · exfalso
+            subst h0
+            have hb : (m' == 0) = false := by simpa using h0'
+            simp only [beq_self_eq_true, ↓reduceIte, hb, Bool.false_eq_true, List.cons_append, List.nil_append,
+              List.cons.injEq] at h
+            have := body_head fmt rs ms c (fun x hx => hseq x (List.mem_cons_of_mem _ hx))
+            rw [h.2] at this
+            simp [bracket] at this
+          · exfalso
+            subst h0'
+            have hb : (m == 0) = false := by simpa using h0
+            simp only [beq_self_eq_true, ↓reduceIte, hb, Bool.false_eq_true, List.cons_append, List.nil_append,
+              List.cons.injEq] at h
+            have := body_head fmt rs' ms' c' (fun x hx => hseq' x (List.mem_cons_of_mem _ hx))
+            rw [← h.2] at this
+            simp [bracket] at this
+          · have hb : (m == 0) = false := by simpa using h0
+            have hb' : (m' == 0) = false := by simpa using h0'
+            simp only [hb, hb', Bool.false_eq_true, ↓reduceIte, List.cons_append, List.cons.injEq] at h
+            have hS := hm m (by simp) h0
+            have hS' := hm' m' (by simp) h0'
+            obtain ⟨e1, e2⟩ := bracket_inj (hbr m hS) (hbr m' hS') (by simpa only [List.append_assoc] using h.2)
+            obtain ⟨h1, h2, h3⟩ := hrec e2
+            exact ⟨by rw [h.1, h1], by rw [hinj m m' hS hS' e1, h2], h3⟩
+
+/-- **C06.display_determines** — the display string determines the peptide: if the float text `fmt`
+    never contains `]` and is injective on the masses the two peptides show (set termini, non-zero
+    residue slots), and residues are never `[` or `-` (true of the 22 valid letters), then equal
+    display strings imply equal sequence, N-terminal mass, residue modifications and C-terminal mass. -/
+theorem display_determines (fmt : α → List Nat) (S : α → Prop)
+    (hbr : ∀ m, S m → 93 ∉ fmt m) (hinj : ∀ m m', S m → S m' → fmt m = fmt m' → m = m')
+    (p q : Peptide α)
+    (hlp : p.mods.length = p.sequence.length) (hlq : q.mods.length = q.sequence.length)
+    (hrp : ∀ r ∈ p.sequence, r ≠ 91 ∧ r ≠ 45) (hrq : ∀ r ∈ q.sequence, r ≠ 91 ∧ r ≠ 45)
+    (hSp : Shows S p) (hSq : Shows S q)
+    (h : display fmt p = display fmt q) :
+    p.sequence = q.sequence ∧ p.nterm = q.nterm ∧ p.mods = q.mods ∧ p.cterm = q.cterm := by
+  unfold display at h
+  simp only [List.append_assoc] at h
+  have hbody := body_inj fmt S hbr hinj p.sequence q.sequence p.mods q.mods p.cterm q.cterm hlp hlq hrp hrq
+    hSp.2.2 hSq.2.2 hSp.2.1 hSq.2.1
+  cases hn : p.nterm with
+  | none =>
+    cases hn' : q.nterm with
+    | none =>
+      rw [hn, hn'] at h
+      obtain ⟨h1, h2, h3⟩ := hbody (by simpa [dispN] using h)
+      exact ⟨h1, rfl, h2, h3⟩
+    | some m' =>
+      exfalso
+      rw [hn, hn'] at h
+      have := body_head fmt p.sequence p.mods p.cterm hrp
+      simp only [dispN, List.nil_append] at h
+      rw [h] at this
+      simp [bracket] at this
+  | some m =>
+    cases hn' : q.nterm with
+    | none =>
+      exfalso
+      rw [hn, hn'] at h
+      have := body_head fmt q.sequence q.mods q.cterm hrq
+      simp only [dispN, List.nil_append] at h
+      rw [← h] at this
+      simp [bracket] at this
+    | some m' =>
+      rw [hn, hn'] at h
+      simp only [dispN, List.append_assoc] at h
+      have hS := hSp.1 m hn
+      have hS' := hSq.1 m' hn'
+      obtain ⟨e1, e2⟩ := bracket_inj (hbr m hS) (hbr m' hS') h
+      simp only [List.singleton_append, List.cons.injEq, true_and] at e2
+      obtain ⟨h1, h2, h3⟩ := hbody e2
+      exact ⟨h1, by rw [hinj m m' hS hS' e1], h2, h3⟩
+
+end displayInj
+
+/-- the 22 valid residue letters are never `[` or `-` -/
+theorem validAA_not_bracket {c : Nat} (h : validAA c = true) : c ≠ 91 ∧ c ≠ 45 := by
+  have h2 := (validAA_ascii h).2
+  constructor <;> (rintro rfl; revert h2; decide)
+
+/-- **C06.display_determines_forms** — for the forms `apply` generates from a `try_from` peptide: two
+    forms with the same display string are the same form (N-terminal mass, residue modifications,
+    C-terminal mass), whenever `fmt` has no `]` and is injective on the masses they show. -/
+theorem display_determines_forms (pos : Position) (seq : List Nat) (vars statics : List (Target × Rat))
+    (max : Nat) (p : Peptide Rat) (hp : tryFrom Sage.Gen.H2O Sage.Gen.MONOISOTOPIC pos seq = some p)
+    (fmt : Rat → List Nat) (S : Rat → Prop)
+    (hbr : ∀ m, S m → 93 ∉ fmt m) (hinj : ∀ m m', S m → S m' → fmt m = fmt m' → m = m')
+    (f g : Peptide Rat) (hf : f ∈ apply p vars statics max) (hg : g ∈ apply p vars statics max)
+    (hSf : Shows S f) (hSg : Shows S g) (h : display fmt f = display fmt g) : toForm f = toForm g := by
+  obtain ⟨f1, _, f3, _⟩ := mass_formula _ _ pos seq vars statics max p hp f hf
+  obtain ⟨g1, _, g3, _⟩ := mass_formula _ _ pos seq vars statics max p hp g hg
+  have hres : ∀ r ∈ seq, r ≠ 91 ∧ r ≠ 45 := by
+    intro r hr
+    have hacc := (try_from_accepts_iff Sage.Gen.H2O Sage.Gen.MONOISOTOPIC pos seq).mp (by simp [hp]) r hr
+    have hv : validAA r = true := by
+      simp only [validAA, Bool.and_eq_true, decide_eq_true_eq]
+      exact ⟨hacc.1, by simpa using (monoisotopic_ne_zero_iff r hacc.1).mp hacc.2⟩
+    exact validAA_not_bracket hv
+  obtain ⟨_, h2, h3, h4⟩ := display_determines fmt S hbr hinj f g (by rw [f3, f1]) (by rw [g3, g1])
+    (by rw [f1]; exact hres) (by rw [g1]; exact hres) hSf hSg h
+  simp [toForm, h2, h3, h4]
+
+/-- non-vacuity: with the text `+16` / `+42` / `-17` for the three masses in play, `[+42]-M[+16]K-[-17]`
+    is what the model prints, and the hypotheses of `display_determines` hold for that `fmt` -/
+def exampleFmt (m : Rat) : List Nat :=
+  if m = 16 then [43, 49, 54] else if m = 42 then [43, 52, 50] else [45, 49, 55]
+
+example : display exampleFmt
+    { position := .full, sequence := [77, 75], mods := [16, 0], nterm := some 42, cterm := some (-17), mono := 0 }
+    = [91, 43, 52, 50, 93, 45, 77, 91, 43, 49, 54, 93, 75, 45, 91, 45, 49, 55, 93] := by
+  decide +kernel
+
+example : (∀ m : Rat, (m = 16 ∨ m = 42 ∨ m = -17) → 93 ∉ exampleFmt m) ∧
+    (∀ m m' : Rat, (m = 16 ∨ m = 42 ∨ m = -17) → (m' = 16 ∨ m' = 42 ∨ m' = -17) →
+      exampleFmt m = exampleFmt m' → m = m') := by
+  constructor
+  · rintro m (rfl | rfl | rfl) <;> decide +kernel
+  · rintro m m' (rfl | rfl | rfl) (rfl | rfl | rfl) <;> first | (intro; rfl) | (intro h; revert h; decide +kernel)
+
+
 end Sage.C06
